@@ -25,9 +25,9 @@ RULE = ('Each case draws one hostile input class (%s), builds fresh data / param
 ASSUMPTIONS = ['an input whose data object cannot be constructed is not an "accepted data object" (owned by C15) and is only counted',
                'termination is judged on logical steps (aggregation events); the wall-clock watchdog only yields inconclusive']
 EXHAUSTIVE = {'quick': False, 'thorough': False}
-MINIMA = {'quick': {'searches': 500, 'set:classes_seen': len(CLASSES), 'distinct_nontrivial': 150, 'outcome_empty': 50,
+MINIMA = {'quick': {'shared_data_searches': 40, 'searches': 500, 'set:classes_seen': len(CLASSES), 'distinct_nontrivial': 150, 'outcome_empty': 50,
                     'outcome_designs': 50},
-          'thorough': {'searches': 5000, 'set:classes_seen': len(CLASSES), 'distinct_nontrivial': 1500, 'outcome_empty': 500,
+          'thorough': {'shared_data_searches': 400, 'searches': 5000, 'set:classes_seen': len(CLASSES), 'distinct_nontrivial': 1500, 'outcome_empty': 500,
                        'outcome_designs': 500}}
 N = {'quick': 420, 'thorough': 4200}
 CASE_TIMEOUT = {'quick': 300, 'thorough': 900}
@@ -137,8 +137,10 @@ def run_case(spec):
   violations = []
   outcomes = []
   nontrivial = False
+  shared = spec['idx'] % 4 == 1      # A.search -> B.search (same data object) -> A.search, last call judged
   for which in ('exhaustive', 'greedy'):
-    rec = sl.run_search(case, which)
+    rec = sl.run_search(case, which, interleave=(r if shared else None))
+    counters['shared_data_searches'] += bool(rec.get('interleaved'))
     o = rec['outcome']
     if rec.get('stage') == 'build':
       # which object refused?  data/parameters not accepted -> outside the property; matched-markets
